@@ -857,7 +857,8 @@ class Frame(object):
             for _ in range(smearing_subsamples):
                 signal += (t_profile_tt * f_profile(ff, path_tt) 
                            / smearing_subsamples * bp_profile_ff)
-                path_tt += dpath_tt
+                # Not in-place: an integer-valued path array must not fix the dtype
+                path_tt = path_tt + dpath_tt
         else:
             signal = t_profile_tt * f_profile(ff, path_tt) * bp_profile_ff
 
